@@ -88,6 +88,8 @@ func engineFilters(ctx *Ctx) {
 	ctx.R.Extra["recognised_tool_names_in_the_program_text"] = float64(len(tools)) / float64(ctx.NShards)
 	c04ToolSweep(ctx, tools)
 	c04Huge(ctx, r)
+	c04SharedList(ctx, r)
+	c04ManySearches(ctx, r)
 	for d := 0; d < nDB; d++ {
 		var db *database.Database
 		dbName := fmt.Sprintf("gen-%d-%d", ctx.Shard, d)
@@ -624,5 +626,88 @@ func c04Huge(ctx *Ctx, r *rand.Rand) {
 	ctx.R.Path("huge-databases", 1)
 	if n > 65536 {
 		ctx.R.Path("huge-databases-over-65536-entries", 1)
+	}
+}
+
+// c04SharedList: a caller keeps ONE list of the platforms it supports and asks with prefixes of it (first the platform in hand,
+// then two of them without cross-platform entries, ...): slices with spare capacity behind their end. Every request is judged
+// against the platforms the caller asked for (a private copy), and the caller's list is unchanged afterwards.
+func c04SharedList(ctx *Ctx, r *rand.Rand) {
+	for d := 0; d < ctx.Pick(6, 40); d++ {
+		cmds0 := vlib.GenCommands(r, vlib.DBSpec{N: 30 + r.Intn(60), TieHeavy: true, Platforms: 2, Pipelines: true, PseudoCmd: true})
+		var db *database.Database
+		if !ctx.R.Guard("C04", "LoadDatabase", "shared-list", func() { db = vlib.MustLoad(cmds0) }) {
+			continue
+		}
+		words := vlib.DBWords(db.Commands)
+		N := len(db.Commands)
+		supported := []string{"linux", "windows", "macos", "android", "haiku"}
+		r.Shuffle(len(supported), func(i, j int) { supported[i], supported[j] = supported[j], supported[i] })
+		before := append([]string(nil), supported...)
+		cdb := database.NewCachedDatabase(db)
+		for step := 0; step < 8; step++ {
+			k := 1 + r.Intn(len(supported)-1)
+			o := database.SearchOptions{Limit: N + 1, UseFuzzy: step%3 == 2, UseNLP: step%2 == 1, NoCrossPlatform: step%2 == 1, Platforms: supported[:k]}
+			asked := o
+			asked.Platforms = append([]string(nil), before[:k]...)
+			q := vlib.GenQuery(r, words, 1+r.Intn(2), []int{0, 0, 2}[r.Intn(3)])
+			cs := map[string]interface{}{"db": "shared-platform-list", "n": N, "query": q, "opts": vlib.OptsJ(asked), "the_callers_list": before, "step": step}
+			ctx.R.Begin(cs)
+			ctx.R.Eval(1)
+			ctx.R.Guard("C04", "SearchUniversal", cs, func() {
+				var res []database.SearchResult
+				if step%4 == 3 {
+					res = cdb.SearchWithOptionsAndCache(q, o)
+				} else {
+					res = db.SearchUniversal(q, o)
+				}
+				c04Report(ctx, cs, asked, res, "SearchUniversal", "platform-list-with-spare-capacity")
+			})
+			ctx.R.Path("requests-with-a-prefix-of-the-callers-platform-list", 1)
+			if fmt.Sprint(supported) != fmt.Sprint(before) {
+				ctx.R.Violate(vlib.Violation{Property: "C04", Clause: "platform-leak", Path: "SearchUniversal/platform-list-with-spare-capacity",
+					Detail: fmt.Sprintf("the search wrote into the caller's platform list: it was %v, it is %v (later requests with a longer prefix ask for other platforms than the caller means)", before, supported), Witness: cs})
+				copy(supported, before)
+			}
+		}
+	}
+}
+
+// c04ManySearches: one database object serves a request that reaches an entry of another platform with the filters off, then
+// tens of thousands of requests that do not touch that entry (65,533 .. 65,536 and 131,070 of them - whatever is counted per
+// search in 16 bits comes round), then the same request under the platform and pipeline filters.
+func c04ManySearches(ctx *Ctx, r *rand.Rand) {
+	if ctx.Shard%8 != 5 && !ctx.Thorough {
+		return
+	}
+	old := runtime.GOMAXPROCS(1) // (a pooled per-search scratch object stays the same one)
+	defer runtime.GOMAXPROCS(old)
+	cmds := []vlib.Cmd{}
+	for i := 0; i < 12; i++ {
+		cmds = append(cmds, vlib.Cmd{Command: fmt.Sprintf("decoy%d --flag", i), Description: fmt.Sprintf("ordinary thing number%d", i), Platform: []string{"linux", "macos", "windows"}, Pipeline: i%2 == 0})
+	}
+	cmds = append(cmds, vlib.Cmd{Command: "zuntool /special", Description: "rare quokka operation", Platform: []string{"haiku"}, Pipeline: false})
+	for _, gap := range []int{65534, 65535, 65536, 131070, 65533} {
+		var db *database.Database
+		if !ctx.R.Guard("C04", "LoadDatabase", "many-searches", func() { db = vlib.MustLoad(vlib.StripCaches(cmds)) }) {
+			return
+		}
+		cs := map[string]interface{}{"db": "13 entries, one for another platform", "searches_in_between": gap}
+		ctx.R.Begin(cs)
+		ctx.R.Eval(1)
+		ctx.R.Guard("C04", "SearchUniversal", cs, func() {
+			open := database.SearchOptions{Limit: 20, AllPlatforms: true}
+			for _, o := range []database.SearchOptions{{Limit: 20, Platforms: []string{"linux"}}, {Limit: 20, PipelineOnly: true, AllPlatforms: true}, {Limit: 20, Platforms: []string{"windows"}, NoCrossPlatform: true}} {
+				if len(db.SearchUniversal("quokka", open)) != 1 {
+					panic("the unfiltered request does not find the entry")
+				}
+				for i := 0; i < gap; i++ {
+					db.SearchUniversal(fmt.Sprintf("number%d thing", i%12), database.SearchOptions{Limit: 3, Platforms: []string{"linux"}, PipelineOnly: i%5 == 0})
+				}
+				c04Report(ctx, map[string]interface{}{"case": cs, "query": "quokka", "opts": vlib.OptsJ(o)}, o, db.SearchUniversal("quokka", o), "SearchUniversal", "after-many-searches")
+				ctx.R.Path("requests-repeated-after-tens-of-thousands-of-searches", 1)
+			}
+			ctx.R.Nontriv("many-searches", gap)
+		})
 	}
 }
